@@ -29,6 +29,11 @@ def gen_tokens(rng):
             toks.append(rng.choice(["Cresc=2", "Decresc=3", "Cresc=%d" % rng.randint(1, 4)]) + "\0" if rng.random() < 0.5 else rng.choice(["Cresc=2;", "Decresc=3;"]))
             toks.append(rng.choice([")", "(", ") c", "( d"]))
         if rng.random() < 0.06:
+            # a controller written in the short form `y<no>,<value>` (no parentheses of its own), followed by the velocity step `)`
+            # (the value is an expression: `|`, a line break or `;` would end or continue it, so only blanks or a range comment follow — mark \1)
+            toks.append("y%d,%d\1" % (rng.choice([7, 10, 11, 91]), rng.randint(0, 127)))
+            toks.append(rng.choice([")", ") c", ")d", ") ) e"]))
+        if rng.random() < 0.06:
             # a command that may be written without any argument, followed by a one-character command that looks like the start of one
             toks.append(rng.choice(["Cresc", "Decresc", "CRESC", "TrackSync", "ResetGM;", "PlayFromHere"]))
             toks.append(rng.choice(["(", "( c", "(d", "=" if False else "( e f"]))
@@ -64,6 +69,9 @@ def layout(rng, toks, rich=True):
             out.append(t[:-1]); sep = rng.choice(NL_SEPS if rich else NL_SEPS[:5])
             out.append(sep % rng.choice(COMMENT_TEXT).replace("*", "") if "%s" in sep else sep)
             continue
+        if t.endswith("\1"):
+            out.append(t[:-1]); out.append(rng.choice([" ", "\t", "  ", " /*" + rng.choice(COMMENT_TEXT).replace("*", "") + "*/ "] if rich else [" ", "  ", "\t"]))
+            continue
         out.append(t)
         if i == len(toks) - 1: break
         r = rng.random()
@@ -92,7 +100,7 @@ def streams(tier, rng, P, only=None, cases=None):
         n = 8000 if big else 1000
         for i in range(n):
             toks = gen_tokens(rng)
-            a = "".join(t[:-1] + "\n" if t.endswith("\0") else t + " " for t in toks)
+            a = "".join(t[:-1] + "\n" if t.endswith("\0") else (t[:-1] + "; " if t.endswith("\1") else t + " ") for t in toks)
             if i % 5 == 4 and not any(("{" in t or '"' in t or "#" in t or "/" in t) for t in toks):
                 b = widen(layout(rng, toks, rich=False)); kind = "wide"
             else:
